@@ -90,7 +90,10 @@ def gen_case(rng):
                           rng.choice(['total: 12 \u20ac\n', 'na\u00efve caf\u00e9\n', '\u65e5\u672c\n'])
         else:
             content = bytes(rng.randrange(256) for _ in range(rng.choice([0, 1, 8, 64, 4096, 8192]))).hex()
-        files.append({'name': name, 'kind': kind, 'how': how, 'content': content})
+        fl = {'name': name, 'kind': kind, 'how': how, 'content': content}
+        if any(target_of(f) == target_of(fl) for f in files):
+            fl['name'] = 'n%d_%s' % (j, name)       # (two outputs of one command are two files)
+        files.append(fl)
     if files and rng.random() < 0.2:
         # a second output with the same base name in another directory (reference copies collide)
         twin = dict(files[0], how='dir2', content=files[0]['content'] + ('x\n' if files[0]['kind'] == 'text' else '00'))
@@ -104,6 +107,8 @@ def gen_case(rng):
                               content=f0['content'] + ('y\n' if f0['kind'] == 'text' else '01')))
             if files[-1]['name'] == f0['name']:
                 files.pop()
+    seen = set()
+    files = [f for f in files if not (target_of(f) in seen or seen.add(target_of(f)))]     # one file per path
     flags = []
     if rng.random() < 0.15:
         flags.append('--no-stdout')
@@ -117,12 +122,15 @@ def gen_case(rng):
     if status != 0:
         flags.append('--non-zero-exit')
     script = rng.choice(['test_cmd.py', 'test_cmd.py', 'test_cmd', 'cmd.py', 'cmd', 'test_my_cmd2.py', 'ABS:test_abs.py',
-                         'test_with-dash.py', 'test_with.dot.py', 'testcmd.py'])
+                         'test_with-dash.py', 'test_with.dot.py', 'testcmd.py', 'test__cmd.py', '_cmd.py', 'test___cmd.py',
+                         'test_cmd_.py'])
     return {'stdout': gen_text(rng), 'stderr': gen_text(rng, 2) if rng.random() < 0.5 else '', 'files': files,
             'status': status, 'iterations': rng.choice([1, 2, 2, 3]), 'flags': flags, 'script': script,
             'existing': rng.random() < 0.5, 'cmd_style': rng.choice(['cat', 'cat', 'printf']),
             'preexisting': rng.random() < 0.25, 'preserve_times': rng.random() < 0.3,
-            'old_bystanders': rng.random() < 0.3}
+            'old_bystanders': rng.random() < 0.3,
+            # another generated test (test_cmd.py with its reference directory ref/cmd) is already there
+            'prior_test': rng.random() < 0.25}
 
 
 def target_of(fl, base='w'):
@@ -202,6 +210,12 @@ def build_dir(case, d):
                         f.write(data)
                     old = 1500000000 + len(name)
                     os.utime(pth, (old, old))
+    if case.get('prior_test') and script_paths(case, d)[1] != 'test_cmd.py' and script_paths(case, d)[2] != os.path.join('ref', 'cmd'):
+        # (a script name that maps to the same reference directory, like testcmd.py, replaces it by design)
+        env = dict(os.environ, PYTHONPATH=core.REPO, PYTHONIOENCODING='utf-8')
+        env.pop('TMPDIR', None)
+        subprocess.run([PY, '-m', 'tdda.referencetest.gentest', 'echo prior output', 'test_cmd.py'], cwd=d, capture_output=True,
+                       text=True, env=env, timeout=120)
     if case.get('existing'):
         with open(os.path.join(d, 'bystander.txt'), 'w') as f:
             f.write('I was here before\n')
